@@ -16,6 +16,6 @@ MANIFEST = {
     "category": "proof",
     "design_ref": "DESIGN.md §5 C01",
     "technique": "verified validator (Lean theorems: certificate ⇒ LR driver sound and crash-free for all inputs) run on every dumped automaton + LR driver model compared with the real parser",
-    "text": "Theorems (Props/C01.lean), for every grammar/automaton pair accepted by Cert.check and EVERY input: whatever LR.parse accepts is a tree whose nodes each spell one production of their rule, rooted at the user's start rule, with the input lexemes as leaves in order (lr_sound); the driver never underflows its stack, misses a goto or mis-accepts (lr_no_crash); if the automaton also passes the lookahead half Cert.checkLA (LR(1) closure and edge lookaheads w.r.t. the verified FIRST/nullable of C17, and a table holding every candidate action) then every sentence is accepted with its own derivation tree (lr_complete) and the accepted inputs are exactly the sentences (lr_accepts_iff_sentence). Both validators are evaluated on the automaton and table the real code built for each generated grammar, so one validation settles all inputs of that grammar; LR.parse is compared with the real parser on generated inputs.",
-    "note": "checkLA is demanded exactly when construction reported no conflicts and no cell was settled silently by precedence (then the parser deliberately accepts a subset: known finding). Termination of LR.parse is not proved (fuel; a fuel-out is compared with the real parser's behaviour). The grammar quantifier is sampled. Trusted: Lean kernel, dump through the public StateGraph/StateTable API, orchestrator.",
+    "text": "Theorems (Props/C01.lean), for every grammar/automaton pair accepted by Cert.check and EVERY input: whatever LR.parse accepts is a tree whose nodes each spell one production of their rule, rooted at the user's start rule, with the input lexemes as leaves in order (lr_sound); the driver never underflows its stack, misses a goto or mis-accepts (lr_no_crash); if the automaton also passes the lookahead half Cert.checkLA (LR(1) closure and edge lookaheads w.r.t. the verified FIRST/nullable of C17, and a table holding every candidate action) then every sentence is accepted with its own derivation tree (lr_complete) and the accepted inputs are exactly the sentences (lr_accepts_iff_sentence); if the automaton also passes the termination certificate Term.termCheck (every run of reductions under one lookahead, started from one state or from two stacked states, ends within N steps) the driver ends on every input (lr_terminates), every non-sentence is rejected with an error (lr_rejects_non_sentence) and the parser decides the language (lr_decides). Both validators are evaluated on the automaton and table the real code built for each generated grammar, so one validation settles all inputs of that grammar; LR.parse is compared with the real parser on generated inputs.",
+    "note": "checkLA is demanded exactly when construction reported no conflicts and no cell was settled silently by precedence (then the parser deliberately accepts a subset: known finding). Termination is a theorem for automata that pass termCheck; the certificate is evaluated on every dumped automaton and counted (driver_counts: it has never failed on a conflict-free table; tables with precedence-resolved conflicts can fail it — see the finding under C07), it is not by itself demanded, because it quantifies over all pairs of states, also pairs that never sit on top of each other. The grammar quantifier is sampled. Trusted: Lean kernel, dump through the public StateGraph/StateTable API, orchestrator.",
 }
